@@ -481,16 +481,21 @@ fn build_labelled<'a>(d: &'a PrettifiableDataset) -> BTreeSet<&'a SimpleTerm<'a>
             continue;
         }
         profile.visited = true;
+        // the blank nodes visited during *this* walk: coming back to any of them
+        // (not only to `key`) means that it is on a cycle
+        let mut path = BTreeSet::new();
+        path.insert(key);
         let mut current = profile.predecessor;
         while let Some(t) = current {
             if let Some(p) = profiles.get_mut(&t) {
-                if t == key {
+                if path.contains(&t) {
                     p.bad = true;
                     break;
                 } else if p.bad || p.visited {
                     break;
                 } else {
                     p.visited = true;
+                    path.insert(t);
                     current = p.predecessor;
                 }
             } else {
